@@ -171,7 +171,7 @@ def unbytes(o):
 
 
 def write_replay(v: Violation) -> Path:
-    d = VERIF / "replays" / v.prop
+    d = Path(os.environ.get("CMVERIF_REPLAY_DIR") or VERIF / "replays") / v.prop
     d.mkdir(parents=True, exist_ok=True)
     body = {
         "property": v.prop,
@@ -214,8 +214,8 @@ def write_evidence(prop, tier, seed, level, coverage, wall_s, violations, assump
     }
     ev = json.loads(dumps(ev))
     jsonschema.validate(ev, _evidence_schema())
-    d = VERIF / "evidence"
-    d.mkdir(exist_ok=True)
+    d = Path(os.environ.get("CMVERIF_EVIDENCE_DIR") or VERIF / "evidence")  # override: runs against a mutant worktree
+    d.mkdir(parents=True, exist_ok=True)
     (d / f"{prop}.json").write_text(json.dumps(ev, indent=1, ensure_ascii=False) + "\n")
     return ev
 
